@@ -4,7 +4,7 @@ from __future__ import annotations
 from typing import Any, Dict
 
 from ..core import Outcome, Prop
-from .component import COMPONENT, compare_c06 as _component
+from .component import COMPONENT, MULTIINDEX, compare_c06 as _component, compare_mi_c06 as _multiindex
 from . import slices
 from .c05 import HISTORY, make_compare
 from ..core import Slice
@@ -21,6 +21,8 @@ _history = make_compare(("outcome", "calls", "hidden"), ("input_unchanged", "cfg
 def compare(vec: Dict[str, Any], obs: Dict[str, Any]) -> Outcome:
     if vec.get("kind") == "component":
         return _component(vec, obs)
+    if vec.get("kind") == "multiindex":
+        return _multiindex(vec, obs)
     if vec["kind"] == "history":
         return _history(vec, obs)
     if vec["kind"] == "rows":
@@ -59,7 +61,7 @@ def compare(vec: Dict[str, Any], obs: Dict[str, Any]) -> Outcome:
 PROP = Prop(
     id="C06",
     title="Errors use the documented channel; failures leave no trace (exception safety)",
-    slices=[HISTORY, slices.SERIES_PARSE, slices.FRAME_PARSE, SERIES_DROP, slices.CONTAINER, slices.INDEX, FRAME_ROWS_ALL, COMPONENT],
+    slices=[HISTORY, slices.SERIES_PARSE, slices.FRAME_PARSE, SERIES_DROP, slices.CONTAINER, slices.INDEX, FRAME_ROWS_ALL, COMPONENT, MULTIINDEX],
     compare=compare,
     rule=("History.tla gives every container / stand-alone column validation a fault parameter: the k-th invocation of a "
           "user callback (parser fn, vectorised and element-wise check fns, index and frame-level check fns) raises a "
